@@ -114,7 +114,7 @@ def err_location_mismatches(row):
         if not (0 <= s < len(ps)) or ps[s]["ok"] or ps[s].get("panic"):
             continue    # reported by the model correspondence (error list differs)
         p2 = ps[s]["end"]
-        want = tuple(tp[p2]) if 0 <= p2 < len(tp) else (0, 0)
+        want = tuple(tp[p2]) if 0 <= p2 < len(tp) else (tuple(tp[-1]) if tp else (0, 0))   # past the last token: the end of input
         got = (e.get("line", 0), e.get("col", 0))
         if got != want:
             out.append("error of the statement at token %d: located at line %d column %d, the token under the cursor (token %d) is at line %d column %d"
